@@ -154,7 +154,16 @@ func c04Prepare(o *jobOut, seed int64, idx int, scn c04Scn, thorough bool) *c04P
 			kind = "b"
 		}
 		add := func(path, op string, mut []byte) {
-			key := fmt.Sprintf("r%d.%s.%s", rec.Round, kind, c04NormPath(path))
+			// strata: one per leaf path; all map sites (resp. array sites) of a message kind form ONE
+			// stratum, so that container operators do not crowd out the leaves in the quick sample
+			np := c04NormPath(path)
+			switch {
+			case strings.HasSuffix(np, "{}"):
+				np = "{}"
+			case strings.HasSuffix(np, "[]"):
+				np = "[]"
+			}
+			key := fmt.Sprintf("r%d.%s.%s", rec.Round, kind, np)
 			p.groups[key] = append(p.groups[key], len(p.cases))
 			p.cases = append(p.cases, c04Case{ri, path, op, mut})
 		}
@@ -215,7 +224,26 @@ func c04Select(p *c04Prepared, r *Rng, thorough bool) []int {
 	for _, k := range keys {
 		g := append([]int{}, p.groups[k]...)
 		r.Shuffle(len(g), func(i, j int) { g[i], g[j] = g[j], g[i] })
-		perm[k] = g
+		// within a stratum alternate between operators that substitute another VALID value of the same
+		// kind (they reach the semantic checks) and the others (mostly caught by decoding / validation)
+		var pref, rest, mixed []int
+		for _, ci := range g {
+			switch p.cases[ci].op {
+			case "par", "replay", "swapr", "swapf":
+				pref = append(pref, ci)
+			default:
+				rest = append(rest, ci)
+			}
+		}
+		for len(pref) > 0 || len(rest) > 0 {
+			if len(pref) > 0 {
+				mixed, pref = append(mixed, pref[0]), pref[1:]
+			}
+			if len(rest) > 0 {
+				mixed, rest = append(mixed, rest[0]), rest[1:]
+			}
+		}
+		perm[k] = mixed
 	}
 	var out []int
 	for len(out) < want {
